@@ -257,6 +257,53 @@ FrameValCases ==
            id \in 1..6, v \in {"zero", "one", "i31m1", "i31", "u32m1"}, tg \in {"server-framer", "client-framer"} }
 ASSUME Emit => \A x \in FrameValCases : PrintT(<<"CASE", ToJson(x)>>)
 
+(* ------------------------------------------------------------------ SETTINGS: the same identifier several times in one frame
+   RFC 7540 6.5: "The values in the SETTINGS frame MUST be processed in the order they appear"; 6.5.2 gives the legal range
+   of every parameter and makes a value outside of it a connection error.  Every occurrence is a value of the
+   parameter, so a frame is refused iff ANY occurrence is absurd - in particular an absurd LAST occurrence (the one that
+   stays in force) must be refused exactly like a single absurd value, whatever legal value stands in front of it.
+   (The unchanged code validates each occurrence while it applies them in order, on the server side; x/net's own
+   server loop refuses duplicate identifiers altogether, MOSN's MServerConn / MClientConn do not.)
+   After an accepted frame the connection must still be able to send a message with a body.
+   Defects (TLC must reject each):
+     "ValidateFirstOccurrence"  the range check looks at the first occurrence of an identifier, all occurrences are applied
+     "NoRangeCheck"             values are applied without a range check (a MAX_FRAME_SIZE of 0 makes the DATA writer spin) *)
+SV(id, v) == [id |-> id, v |-> v]
+LegalOf(id)  == CASE id = 1 -> "4096" [] id = 2 -> "zero" [] id = 3 -> "100" [] id = 4 -> "65535" [] id = 5 -> "16384" [] id = 6 -> "1m"
+AbsurdOf(id) == CASE id = 2 -> {"two"} [] id = 4 -> {"i31", "u32m1"} [] id = 5 -> {"zero", "16383", "p24", "u32m1"} [] OTHER -> {}
+OtherLegalOf(id) == CASE id = 1 -> {"u32m1"} [] id = 3 -> {"u32m1"} [] id = 5 -> {"p24m1"} [] id = 6 -> {"u32m1"} [] OTHER -> {}
+ValuesOf(id) == {LegalOf(id)} \cup AbsurdOf(id) \cup OtherLegalOf(id)
+Absurd(x) == x.v \in AbsurdOf(x.id)
+
+SettingLists ==
+  LET single == { <<SV(id, v)>> : id \in 1..6, v \in { w \in {"4096", "zero", "two", "100", "65535", "i31", "u32m1", "16384", "16383", "p24", "p24m1", "1m"} : TRUE } }
+      ok1 == { l \in single : l[1].v \in ValuesOf(l[1].id) }
+      pairs == UNION { { <<SV(id, a), SV(id, b)>> : a \in ValuesOf(id), b \in ValuesOf(id) } : id \in 1..6 }
+      triples == UNION { UNION { { <<SV(id, LegalOf(id)), SV(id, x), SV(id, LegalOf(id))>>, <<SV(id, x), SV(id, LegalOf(id)), SV(id, LegalOf(id))>>,
+                                   <<SV(id, LegalOf(id)), SV(id, LegalOf(id)), SV(id, x)>> } : x \in AbsurdOf(id) } : id \in {2, 4, 5} }
+      mixed == { <<SV(5, LegalOf(5)), SV(4, "i31")>>, <<SV(4, LegalOf(4)), SV(5, "zero")>>, <<SV(5, "zero"), SV(4, LegalOf(4)), SV(5, LegalOf(5))>> }
+  IN ok1 \cup pairs \cup triples \cup mixed
+
+AnyAbsurd(l) == \E i \in DOMAIN l : Absurd(l[i])
+SListExpect(l) == IF AnyAbsurd(l) THEN "refused" ELSE "accepted"
+
+(* the connection, in the shape of the code: validate, then apply in order; what the writer does afterwards *)
+FirstOf(l, id) == l[CHOOSE i \in DOMAIN l : l[i].id = id /\ \A j \in DOMAIN l : l[j].id = id => i <= j]
+LastOf(l, id)  == l[CHOOSE i \in DOMAIN l : l[i].id = id /\ \A j \in DOMAIN l : l[j].id = id => i >= j]
+Ids(l) == { l[i].id : i \in DOMAIN l }
+SListImpl(l) ==
+  LET refused == IF "NoRangeCheck" \in Defects THEN FALSE
+                 ELSE IF "ValidateFirstOccurrence" \in Defects THEN \E id \in Ids(l) : Absurd(FirstOf(l, id))
+                 ELSE AnyAbsurd(l)
+      mfs == IF 5 \in Ids(l) THEN LastOf(l, 5).v ELSE "16384"
+  IN IF refused THEN [handled |-> "refused", write |-> "skipped"]
+     ELSE [handled |-> "accepted", write |-> IF mfs = "zero" THEN "loop" ELSE "sent"]
+
+ASSUME \A l \in SettingLists : LET r == SListImpl(l) IN r.handled = SListExpect(l) /\ r.write # "loop"
+
+ASSUME Emit => \A l \in SettingLists : \A tg \in {"server-conn", "client-conn"} :
+  PrintT(<<"CASE", ToJson([kind |-> "slist", target |-> tg, items |-> l, expect |-> SListExpect(l)])>>)
+
 (* ------------------------------------------------------------------ the machine: one case, one call *)
 VARIABLES kind, frames, reps, n, pc, res
 vars == <<kind, frames, reps, n, pc, res>>
